@@ -89,7 +89,9 @@ impl Ev {
     pub fn domain_ok(&self) -> bool { match self { Ev::Message(e) => msg_domain_ok(&e.value), _ => true } }
 }
 pub fn cerr(e: &ConvertPacketError) -> &'static str { match e { ConvertPacketError::WrongSize => "WrongSize", ConvertPacketError::UnknownEnumVariant => "UnknownEnumVariant",
-    ConvertPacketError::WrongType => "WrongType", ConvertPacketError::Event(EventError::WrongEventType) => "WrongEventType" } }
+    ConvertPacketError::WrongType => "WrongType", ConvertPacketError::Event(EventError::WrongEventType) => "WrongEventType",
+    #[allow(unreachable_patterns)]
+    _ => "OtherConvertError" } }
 
 fn p16(s: &str) -> Option<u16> { u16::from_str_radix(s, 16).ok() }
 fn p8(s: &str) -> Option<u8> { u8::from_str_radix(s, 16).ok() }
